@@ -222,7 +222,8 @@ def extract(repo=None):
     (c1, h1), (c2, h2) = hr["tries"]
     if c1 != ["get_response_type"] or [h[0] for h in h1] != [["NotAcceptable"]] or h1[0][1] != ("swallow",):
         raise TranslationError("handle_request: Accept negotiation block changed")
-    if c2 != ["map_adapter.match", "endpoint"] or len(h2) != 1 or h2[0][1] != ("swallow",):
+    if c2 not in (["map_adapter.match", "endpoint"], ["self.url_map.bind_to_environ", "map_adapter.match", "endpoint"]) \
+            or len(h2) != 1 or h2[0][1] != ("swallow",):
         raise TranslationError("handle_request: dispatch block changed")
     res["converted"] = h2[0][0]
     if not res["routes"] or not res["constructables"] or not res["content_types"] or not res["response_types"]:
